@@ -39,6 +39,9 @@ MAX_REPORTED = 12                # distinct violation classes written out as rep
 
 
 # ----------------------------------------------------------------------------- constants
+LOOSE = set()          # container families whose capacity law is not compared exactly (see extract_constants)
+
+
 def extract_constants(tree):
     """INITIAL_CAPACITY / GROWTH_FACTOR of each container source (DESIGN 5.1: extracted, not frozen)."""
     out = {}
@@ -49,11 +52,16 @@ def extract_constants(tree):
             m1 = re.search(r"#define\s+INITIAL_CAPACITY\s+(\d+)", text)
             m2 = re.search(r"#define\s+GROWTH_FACTOR\s+(\d+)", text)
             if not (m1 and m2):
-                raise InfraError("cannot extract INITIAL_CAPACITY/GROWTH_FACTOR from %s" % f)
-            vals.add((int(m1.group(1)), int(m2.group(1))))
-        if len(vals) != 1:
-            raise InfraError("list_int.c and list_string.c disagree on their capacity constants: %s" % vals)
-        out[fam] = vals.pop()
+                vals.add(None)           # the growth policy is not written the way the model knows it
+            else:
+                vals.add((int(m1.group(1)), int(m2.group(1))))
+        if len(vals) != 1 or None in vals:
+            # C20 states length <= capacity, not a growth policy: histories are generated with the model's default policy
+            # and the probe compares capacities of this family only against the invariant (RT_PROBE_LOOSE_CAP)
+            LOOSE.add(fam)
+            out[fam] = (8, 2)
+        else:
+            out[fam] = vals.pop()
     out["gc"] = out["dyn"]
     return out
 
@@ -132,6 +140,8 @@ def run_probe_worker(ctx, probe, hist_file, report_file, errfile):
         env = dict(os.environ)
         env.update(ctx.env(PROBE_ENV))
         env["RT_PROBE_FORK_EVERY"] = "16" if ctx.tier == "quick" else "4"
+        if LOOSE:
+            env["RT_PROBE_LOOSE_CAP"] = ",".join(sorted(LOOSE))
         with open(errfile, "ab") as ef:
             p = subprocess.run(cmd, env=env, stdout=subprocess.DEVNULL, stderr=ef, timeout=3000)
         if p.returncode == 0:
@@ -381,6 +391,8 @@ def run(ctx):
     tree = ctx.build("asan")
     probe = ctx.probe("rt_probe", "asan", libs=("-ldl",))
     consts = extract_constants(tree)
+    if LOOSE:
+        assumptions.append("growth policy of %s not in the form INITIAL_CAPACITY/GROWTH_FACTOR: capacities of that family are only required to satisfy length <= capacity" % sorted(LOOSE))
     cov["extracted_constants"] = {k: list(v) for k, v in consts.items()}
 
     # --- A. model checking + generation
